@@ -133,6 +133,7 @@ impl CliCase {
             unsafe_mutations: self.unsafe_mutations,
             allow_ext: self.allow_ext,
             allow_buffer: self.allow_buffer,
+            prior_calls: 0,
         })
     }
 
